@@ -4,6 +4,12 @@ from __future__ import annotations
 
 from ._kxcheck import replay_kx, run_kx
 
+
+def runtime_phase(run, tier, seed, tot):
+    from ..rtsweep import phase
+
+    return phase(run, tier, seed, tot, "C03", usability=False, sparse_only=True)
+
 ORACLES = ["phantom", "ac"]
 
 
@@ -19,6 +25,7 @@ def run(tier, seed):
              "compressed output level l the set of stored level prefixes (explicit zeros included, decoded from the "
              "raw arrays of evaluate and of assemble) must be a subset of the projection of the structural support "
              "(product=intersection, sum=union, summation=projection, literal=everywhere) onto levels 0..l",
+        extra_phase=runtime_phase,
         assumptions=[
             "only the 'no phantom' direction is demanded; completeness of the stored set is C01's job",
         ],
